@@ -171,6 +171,8 @@ theorem unchecked_assertions_expected : Gen.uncheckedAssertions =
     * New: a registered start-up script fails (embedder's registry, not a script's doing);
     * catchPanic (2): re-raises a foreign panic unchanged, by design (C18 trycatch_foreign; the second
       since 73a8a0f inside the guarded string conversion, widened by 95e8d32).
+    * runtime.interrupt / runtime.tryCatchEvaluate (fd4edef, a1dbda4): both re-raise, unchanged, the value a
+      host interrupt function panicked with – the one kind of panic the property lets through.
     A new `panic(<non-exception>)` anywhere in the package shows up here and has to be audited. -/
 theorem unconverted_panics_expected : Gen.unconvertedPanics =
     [("New", "error"), ("Value.bool", "string"), ("Value.float64", "error"), ("Value.string", "error"),
@@ -184,6 +186,7 @@ theorem unconverted_panics_expected : Gen.unconvertedPanics =
      ("runtime.cmplEvaluateNodeExpression", "string"), ("runtime.cmplEvaluateNodeExpression", "string"),
      ("runtime.cmplEvaluateNodeObjectLiteral", "string"), ("runtime.cmplEvaluateNodeStatement", "error"),
      ("runtime.cmplEvaluateNodeStatement", "error"), ("runtime.cmplEvaluateNodeUnaryExpression", "string"),
+     ("runtime.interrupt", "interface{}"), ("runtime.tryCatchEvaluate", "interface{}"),
      ("sameValue", "string"), ("strictEqualityComparison", "string"),
      ("testObjectCoercible", "string"), ("toPrimitive", "string")] := by decide
 
